@@ -5,6 +5,7 @@ package main
 import (
 	"fmt"
 	"go/token"
+	"go/types"
 	"strings"
 
 	"golang.org/x/tools/go/ssa"
@@ -27,6 +28,7 @@ func runWEB(c *Ctx) (obls []Obl) {
 	if sn != nil {
 		webSnapshot(c, a, sn)
 	}
+	webLocks(c, a)
 	return
 }
 
@@ -252,85 +254,379 @@ func webValidation(c *Ctx, a *flAgg, fn *ssa.Function, x *SPE) {
 // reached, never stopping below maxmem while the dump does not fit.
 func webSnapshot(c *Ctx, a *flAgg, fn *ssa.Function) {
 	exprHome = fn.Pkg.Pkg
-	loops := outermostLoops(naturalLoops(fn))
-	if len(loops) != 1 {
-		a.und("WEB-grow", "snapshot/loop", fmt.Sprintf("expected one capture loop, found %d", len(loops)), fn.Pos())
+	// The capture protocol is decided capture by capture, whatever the loop
+	// looks like: from every call of runtime.Stack the paths are followed up
+	// to the next such call or to the point where the buffer is handed to the
+	// parser (bytes.NewReader / ScanSnapshot).
+	isStack := func(in ssa.Instruction) bool {
+		call, ok := in.(*ssa.Call)
+		if !ok {
+			return false
+		}
+		cal := call.Call.StaticCallee()
+		return cal != nil && calleePkg(cal) == "runtime" && cal.Name() == "Stack"
+	}
+	isUse := func(in ssa.Instruction) bool {
+		call, ok := in.(*ssa.Call)
+		if !ok {
+			return false
+		}
+		cal := call.Call.StaticCallee()
+		if cal == nil {
+			return false
+		}
+		return (calleePkg(cal) == "bytes" && cal.Name() == "NewReader") || (calleePkg(cal) == stackPkg && cal.Name() == "ScanSnapshot")
+	}
+	var captures []*ssa.Call
+	for _, b := range fn.Blocks {
+		for _, in := range b.Instrs {
+			if isStack(in) {
+				captures = append(captures, in.(*ssa.Call))
+			}
+		}
+	}
+	if len(captures) == 0 {
+		a.und("WEB-grow", "snapshot/capture", "no call of runtime.Stack found", fn.Pos())
 		return
 	}
-	l := loops[0]
-	seg := &SPE{Fn: fn, Start: l.Header, MaxVisits: 2}
-	seg.Stop = func(from, to *ssa.BasicBlock) bool { return (to == l.Header && l.Body[from]) || (l.Body[from] && !l.Body[to]) }
-	seg.Explore()
-	maxmem := "?phi:maxmem"
-	if len(fn.Params) > 0 {
-		_ = fn.Params[0]
+	intT := types.Typ[types.Int]
+	lenOf := func(e *Expr) *Expr {
+		if e.Op == OpMakeSlice {
+			return e.Args[0]
+		}
+		return &Expr{Op: OpBuiltin, Name: "len", Args: []*Expr{e}, Type: intT}
 	}
-	for _, p := range seg.Paths {
-		pos := pathPos(p, fn)
-		stacks := callEvents(p, isCallTo("runtime", "Stack"))
-		if len(stacks) != 1 {
-			a.bad("WEB-grow", "snapshot/one-capture", fmt.Sprintf("%d captures in one iteration", len(stacks)), pos)
-			continue
+	// lookup of a comparison l < r among the literals of the path
+	lss := func(p *Path, l, r *Expr) (val, known bool) {
+		cond := foldBin(token.LSS, l, r, types.Typ[types.Bool], token.NoPos)
+		if v, ok := cond.boolConst(); ok {
+			return v, true
 		}
-		n := stacks[0].Val.String()
-		fits, haveFits := false, false
-		atMax, haveMax := false, false
-		over, haveOver := false, false
-		for _, lt := range p.Lits {
-			s := lt.Atom.String()
-			at := lt.Atom
-			switch {
-			case strings.HasPrefix(s, "("+n+" < len("):
-				fits, haveFits = lt.Pol, true
-			case at.Op == OpBin && at.Tok == token.LSS && at.Args[0].String() == "len(?phi:buf)":
-				// len(buf) < maxmem: false => the buffer has reached maxmem
-				atMax, haveMax = !lt.Pol, true
-				maxmem = at.Args[1].String()
-			case at.Op == OpBin && at.Tok == token.LSS && at.Args[1].String() == "(len(?phi:buf) * 2)":
-				// maxmem < 2*len(buf)
-				over, haveOver = lt.Pol, true
-			}
+		at, pol := normAtom(cond)
+		if v, ok := p.lit(at.String()); ok {
+			return v == pol, true
 		}
-		continues := p.Term == "stop" && p.End == l.Header
-		switch {
-		case !haveFits:
-			a.bad("WEB-grow", "snapshot/fit-test", "the result of runtime.Stack is not compared with the buffer size", pos)
-		case fits:
-			if continues {
-				a.bad("WEB-grow", "snapshot/stop-when-fits", "the loop continues although the dump fitted", pos)
-			} else {
-				a.ok("WEB-grow", "snapshot/stop-when-fits", "the loop ends when the dump fits", pos)
-			}
-		case haveMax && atMax:
-			if continues {
-				a.bad("WEB-grow", "snapshot/stop-at-maxmem", "the loop continues beyond maxmem", pos)
-			} else {
-				a.ok("WEB-grow", "snapshot/stop-at-maxmem", "the loop ends with a truncated dump only when the buffer has reached maxmem", pos)
-			}
-		default:
-			// dump does not fit and buffer below maxmem: must continue with a strictly larger buffer, at most maxmem
-			nb := p.StopPhis["buf"]
-			if !continues || nb == nil {
-				a.bad("WEB-grow", "snapshot/grow", "the capture gives up although the dump does not fit and the buffer is still smaller than maxmem ("+litsString(p)+"): goroutines are missing from the page (or the parse fails) for valid maxmem values", pos)
+		return false, false
+	}
+	nPaths := 0
+	for _, cap := range captures {
+		seg := &SPE{Fn: fn, StartAt: cap, MaxVisits: 2}
+		seg.StopAt = func(in ssa.Instruction) bool { return isStack(in) || isUse(in) }
+		seg.Explore()
+		for _, p := range seg.Paths {
+			pos := pathPos(p, fn)
+			if p.Term != "stopat" {
+				a.bad("WEB-grow", "snapshot/use", "after a capture the function can end ("+p.Term+") without handing the dump to the parser", pos)
 				continue
 			}
-			size := ""
-			if nb.Op == OpMakeSlice {
-				size = nb.Args[0].String()
+			nPaths++
+			stacks := callEvents(p, isCallTo("runtime", "Stack"))
+			if len(stacks) != 1 || len(stacks[0].Val.Args) < 2 {
+				a.bad("WEB-grow", "snapshot/one-capture", fmt.Sprintf("%d captures in one round", len(stacks)), pos)
+				continue
 			}
-			want := "(len(?phi:buf) * 2)"
-			okSize := false
+			n := stacks[0].Val
+			buf := n.Args[1]
+			fits, haveFits := lss(p, n, lenOf(buf))
+			// the limit: the right-hand side of a comparison len(buf) < M on this path
+			var maxmem *Expr
+			atMax, haveMax := false, false
+			lb := lenOf(buf).String()
+			for _, lt := range p.Lits {
+				at := lt.Atom
+				if at.Op == OpBin && at.Tok == token.LSS && at.Args[0].String() == lb && at.Args[1].String() != n.String() {
+					maxmem = at.Args[1]
+					atMax, haveMax = !lt.Pol, true
+				}
+			}
+			var next *Expr // the buffer of the next capture / handed to the parser
+			if call, ok := p.StopInstr.(*ssa.Call); ok {
+				// Results: operands of the call in order (callee value first for a static call)
+				nOps := len(p.Results)
+				nArgs := len(call.Call.Args)
+				if nOps >= nArgs && nArgs > 0 {
+					next = p.Results[nOps-nArgs]
+				}
+			}
+			again := isStack(p.StopInstr)
 			switch {
-			case haveOver && over && size == maxmem:
-				okSize = true
-			case haveOver && !over && size == want:
-				okSize = true
+			case !haveFits:
+				a.bad("WEB-grow", "snapshot/fit-test", "the result of runtime.Stack is not compared with the buffer size before the buffer is used or replaced", pos)
+			case fits:
+				if again {
+					a.bad("WEB-grow", "snapshot/stop-when-fits", "another capture is made although the dump fitted", pos)
+				} else if next != nil && next.Op == OpSlice && next.Args[0].String() == buf.String() && next.Args[1] == nil && next.Args[2] != nil && next.Args[2].String() == n.String() {
+					a.ok("WEB-grow", "snapshot/stop-when-fits", "when the dump fits, exactly the bytes written are handed to the parser", pos)
+				} else {
+					ns := "?"
+					if next != nil {
+						ns = next.String()
+					}
+					a.bad("WEB-grow", "snapshot/stop-when-fits", "when the dump fits the parser must be given buf[:n]; it is given "+ns, pos)
+				}
+			case haveMax && atMax:
+				if again {
+					a.bad("WEB-grow", "snapshot/stop-at-maxmem", "another capture is made beyond maxmem", pos)
+				} else if next != nil && next.String() == buf.String() {
+					a.ok("WEB-grow", "snapshot/stop-at-maxmem", "a truncated dump is used only when the buffer has reached maxmem", pos)
+				} else {
+					a.bad("WEB-grow", "snapshot/stop-at-maxmem", "at maxmem the whole (truncated) buffer must be handed to the parser", pos)
+				}
+			default:
+				// the dump does not fit and the buffer is below maxmem (or maxmem was not looked at)
+				if !again || next == nil {
+					a.bad("WEB-grow", "snapshot/grow", "the capture gives up although the dump does not fit and the buffer is still smaller than maxmem ("+litsString(p)+"): goroutines are missing from the page (or the parse fails) for valid maxmem values", pos)
+					continue
+				}
+				if !haveMax {
+					a.bad("WEB-grow", "snapshot/grow", "the buffer is grown without comparing its size with maxmem", pos)
+					continue
+				}
+				size := ""
+				if next.Op == OpMakeSlice {
+					size = next.Args[0].String()
+				}
+				dbl := foldBin(token.MUL, lenOf(buf), mkConstInt(2, intT), intT, token.NoPos)
+				over, haveOver := lss(p, maxmem, dbl)
+				okSize := false
+				switch {
+				case haveOver && over && size == maxmem.String():
+					okSize = true
+				case haveOver && !over && size == dbl.String():
+					okSize = true
+				}
+				if okSize {
+					a.ok("WEB-grow", "snapshot/grow", "the buffer is doubled, clamped to maxmem: it strictly grows until maxmem is reached", pos)
+				} else {
+					a.bad("WEB-grow", "snapshot/grow", "the next buffer size is "+size+", expected min(2*len(buf), maxmem)", pos)
+				}
 			}
-			if okSize {
-				a.ok("WEB-grow", "snapshot/grow", "the buffer is doubled, clamped to maxmem: it strictly grows until maxmem is reached", pos)
-			} else {
-				a.bad("WEB-grow", "snapshot/grow", "the next buffer size is "+size+", expected min(2*len(buf), maxmem)", pos)
+		}
+	}
+	c.stat("WEB", "capture_sites", len(captures))
+	c.stat("WEB", "capture_round_paths", nPaths)
+}
+
+// ---------------------------------------------------------------------------
+// WEB-lock: lock pairing in the library and the handler.
+//
+// The pinned tree takes no lock anywhere in stack, stack/webstack and
+// internal: a request never waits for another one. If a lock is introduced,
+// every acquisition must be released on every path to an exit of the
+// function (directly or by a deferred call registered on every such path),
+// and two locks must not be taken in opposite orders; a request that returns
+// with the lock held blocks every later request for ever. Decided by a
+// forward may-held / must-deferred dataflow over the SSA blocks of every
+// function of those packages. cmd/panicweb's throttling handler, the one
+// place of the repository that does take a mutex, is analysed as a control
+// (recorded in the statistics).
+
+type lkState struct {
+	held     map[string]token.Pos // may be held
+	deferred map[string]bool      // must be released by a registered defer
+}
+
+func (s *lkState) clone() *lkState {
+	n := &lkState{held: map[string]token.Pos{}, deferred: map[string]bool{}}
+	for k, v := range s.held {
+		n.held[k] = v
+	}
+	for k := range s.deferred {
+		n.deferred[k] = true
+	}
+	return n
+}
+
+// join: union of held, intersection of deferred; reports change.
+func (s *lkState) join(o *lkState) bool {
+	ch := false
+	for k, v := range o.held {
+		if _, ok := s.held[k]; !ok {
+			s.held[k] = v
+			ch = true
+		}
+	}
+	for k := range s.deferred {
+		if !o.deferred[k] {
+			delete(s.deferred, k)
+			ch = true
+		}
+	}
+	return ch
+}
+
+func lkKey(v ssa.Value) string {
+	switch v := v.(type) {
+	case *ssa.Global:
+		return v.Pkg.Pkg.Name() + "." + v.Name()
+	case *ssa.Alloc:
+		if v.Comment != "" {
+			return v.Comment
+		}
+		return v.Name()
+	case *ssa.FreeVar:
+		return v.Name()
+	case *ssa.Parameter:
+		return v.Name()
+	case *ssa.FieldAddr:
+		st := v.X.Type().Underlying().(*types.Pointer).Elem().Underlying().(*types.Struct)
+		return lkKey(v.X) + "." + st.Field(v.Field).Name()
+	case *ssa.UnOp:
+		if v.Op == token.MUL {
+			return lkKey(v.X)
+		}
+	case *ssa.MakeInterface:
+		return lkKey(v.X)
+	}
+	return v.Name()
+}
+
+// lkOp classifies a call as acquire (+1) / release (-1) of a sync lock.
+func lkOp(cc *ssa.CallCommon) (key string, op int) {
+	cal := cc.StaticCallee()
+	if cal == nil || calleePkg(cal) != "sync" || len(cc.Args) == 0 {
+		return "", 0
+	}
+	recv := ""
+	if r := cal.Signature.Recv(); r != nil {
+		recv = r.Type().String()
+	}
+	if !strings.HasSuffix(recv, "sync.Mutex") && !strings.HasSuffix(recv, "sync.RWMutex") {
+		return "", 0
+	}
+	k := lkKey(cc.Args[0])
+	switch cal.Name() {
+	case "Lock":
+		return k, 1
+	case "Unlock":
+		return k, -1
+	case "RLock":
+		return k + "/r", 1
+	case "RUnlock":
+		return k + "/r", -1
+	}
+	return "", 0
+}
+
+type lkReport struct {
+	sites   int
+	leaks   []string
+	leakPos []token.Pos
+	orders  map[[2]string]token.Pos
+}
+
+func lkAnalyse(f *ssa.Function, rep *lkReport) {
+	if len(f.Blocks) == 0 {
+		return
+	}
+	has := false
+	for _, b := range f.Blocks {
+		for _, in := range b.Instrs {
+			if ci, ok := in.(ssa.CallInstruction); ok {
+				if _, op := lkOp(ci.Common()); op > 0 {
+					if _, isDefer := in.(*ssa.Defer); !isDefer {
+						has = true
+						rep.sites++
+					}
+				}
 			}
+		}
+	}
+	if !has {
+		return
+	}
+	in := map[*ssa.BasicBlock]*lkState{f.Blocks[0]: {held: map[string]token.Pos{}, deferred: map[string]bool{}}}
+	work := []*ssa.BasicBlock{f.Blocks[0]}
+	seenLeak := map[string]bool{}
+	for len(work) > 0 {
+		b := work[0]
+		work = work[1:]
+		st := in[b].clone()
+		for _, ins := range b.Instrs {
+			switch ins := ins.(type) {
+			case *ssa.Defer:
+				if k, op := lkOp(&ins.Call); op < 0 {
+					st.deferred[k] = true
+				}
+			case *ssa.Call:
+				k, op := lkOp(&ins.Call)
+				switch {
+				case op > 0:
+					for h := range st.held {
+						if h != k {
+							if rep.orders == nil {
+								rep.orders = map[[2]string]token.Pos{}
+							}
+							rep.orders[[2]string{h, k}] = ins.Pos()
+						}
+					}
+					st.held[k] = ins.Pos()
+				case op < 0:
+					delete(st.held, k)
+				}
+			case *ssa.Return, *ssa.Panic:
+				for k, p := range st.held {
+					if st.deferred[k] {
+						continue
+					}
+					key := fmt.Sprintf("%s@%d", k, ins.Pos())
+					if !seenLeak[key] {
+						seenLeak[key] = true
+						rep.leaks = append(rep.leaks, k)
+						rep.leakPos = append(rep.leakPos, p)
+						_ = ins
+					}
+				}
+			}
+		}
+		for _, s := range b.Succs {
+			if old, ok := in[s]; !ok {
+				in[s] = st.clone()
+				work = append(work, s)
+			} else if old.join(st) {
+				work = append(work, s)
+			}
+		}
+	}
+}
+
+func webLocks(c *Ctx, a *flAgg) {
+	const rule = "WEB-lock"
+	rep := &lkReport{}
+	nf := 0
+	for _, pn := range []string{"stack", "stack/webstack", "internal"} {
+		for _, f := range c.L.SrcFuncs(pn) {
+			nf++
+			before := len(rep.leaks)
+			lkAnalyse(f, rep)
+			for i := before; i < len(rep.leaks); i++ {
+				a.bad(rule, funcKey(f)+"/"+rep.leaks[i], "the lock "+rep.leaks[i]+" taken here is still held on a path that leaves the function (no Unlock on that path, no deferred Unlock registered on it): the next request that needs it waits for ever", rep.leakPos[i])
+			}
+			if before == len(rep.leaks) && rep.sites > 0 {
+				// sites of this function were all paired: recorded below in bulk
+				_ = f
+			}
+		}
+	}
+	for pr, pos := range rep.orders {
+		if _, rev := rep.orders[[2]string{pr[1], pr[0]}]; rev && pr[0] < pr[1] {
+			a.bad(rule, "order/"+pr[0]+"+"+pr[1], "the two locks are taken in both orders: two requests can wait for each other", pos)
+		}
+	}
+	// control: the one mutex of the repository (cmd/panicweb)
+	ctl := &lkReport{}
+	for _, f := range c.L.SrcFuncs("cmd/panicweb") {
+		lkAnalyse(f, ctl)
+	}
+	c.stat("WEB", "lock_functions_analysed", nf)
+	c.stat("WEB", "lock_sites", rep.sites)
+	c.stat("WEB", "control_lock_sites_cmd_panicweb", ctl.sites)
+	c.stat("WEB", "control_lock_leaks_cmd_panicweb", len(ctl.leaks))
+	if len(rep.leaks) == 0 {
+		if rep.sites == 0 {
+			a.ok(rule, "library+cli", fmt.Sprintf("no lock is taken in stack, stack/webstack and internal (%d functions): a request never waits for another one", nf), token.NoPos)
+		} else {
+			a.ok(rule, "library+cli", fmt.Sprintf("each of the %d lock acquisitions is released on every path to an exit of its function", rep.sites), token.NoPos)
 		}
 	}
 }
